@@ -36,6 +36,15 @@ Rec(i) == All[i + 1]
 
 Marker == <<113, 122, 113>>       \* the plain string "qzq"
 
+(* A flag value (default: d.., user-supplied: u..) read with FlagValue and  *)
+(* concatenated ("a" ++ .. ++ "a"), compared with a string column holding  *)
+(* the same string (the row must come back), as a list element, as a       *)
+(* record field, and read through the ${flag} form inside "a${flag}a".     *)
+(* Flag values are strings whatever they look like (02139, 1.50, -0, true).*)
+FlagPositions == {"dcat", "deq", "dlist", "drec", "dparam",
+                  "ucat", "ueq", "ulist", "urec", "uparam"}
+UserPositions == {"user", "ucat", "ueq", "ulist", "urec", "uparam"}
+
 (* Positions of the literal.  The second group makes it an argument of a   *)
 (* built-in call whose SQL text is produced from a template ({0}-style:    *)
 (* Element, Join, Size, Like; %s-style: Greatest, ToString, Format; Upper   *)
@@ -46,7 +55,7 @@ Marker == <<113, 122, 113>>       \* the plain string "qzq"
 (*   size     ToString(Size([lit]))         like     ToString(Like(lit, "%")) *)
 Positions == {"fact", "list", "record", "concat", "default", "user",
               "element", "joinsep", "greatest", "tostring", "format",
-              "upper", "size", "like"}
+              "upper", "size", "like"} \cup FlagPositions
 
 UpperAscii(s) == [i \in 1..Len(s) |-> IF s[i] >= 97 /\ s[i] <= 122
                                        THEN s[i] - 32 ELSE s[i]]
@@ -55,7 +64,8 @@ UpperAscii(s) == [i \in 1..Len(s) |-> IF s[i] >= 97 /\ s[i] <= 122
 (* (SQLite: "" is the least string; UPPER changes ASCII letters only; a     *)
 (* one-element list has size 1; every string is LIKE "%").                 *)
 Ctx(pos, s) ==
-  CASE pos \in {"concat", "joinsep"} -> <<97>> \o s \o <<97>>
+  CASE pos \in {"concat", "joinsep", "dcat", "ucat", "dparam", "uparam"} ->
+         <<97>> \o s \o <<97>>
     [] pos = "upper" -> UpperAscii(s)
     [] pos \in {"size", "like"} -> <<49>>
     [] OTHER -> s
@@ -64,7 +74,7 @@ Ctx(pos, s) ==
 (* denoted by the Logica literal that was written into the program.        *)
 Denoted(r) ==
   IF r.k = "unit" THEN [ok |-> TRUE, val |-> r.s]
-  ELSE IF r.pos = "user" THEN [ok |-> TRUE, val |-> r.lit]
+  ELSE IF r.pos \in UserPositions THEN [ok |-> TRUE, val |-> r.lit]
   ELSE LET d == LDecode(r.lit) IN [ok |-> d.ok /\ d.form = LexForm(r.form), val |-> d.val]
 
 RECURSIVE SumSeq(_)
